@@ -211,6 +211,14 @@ def main():
         if args.replay:
             with open(args.replay) as f:
                 rp = json.load(f)
+            if rp["part"] == "pinned":
+                res = mod.PINNED[rp["case"]["finding"]]()
+                if res:
+                    print(f"replay: {res}")
+                    print(f"VIOLATION property={pid} replay={args.replay}")
+                    return 1
+                print("replay: case passes")
+                return 0
             part = {p.name: p for p in mod.PARTS}[rp["part"]]
             rec = Recorder()
             try:
